@@ -20,6 +20,11 @@ CLAIMS = {
             "over a transcription of state.rs; status of every call, output snapshot and finalisation compared with the real crates on random long sequences, "
             "all sequences up to length 4 over a 14-letter alphabet, and 32-bit lengths (2^31, 2^32-1) under miri/i686.",
             TB + "miri (32-bit runs).", "Lean 4 invariant theorem + differential correspondence + exhaustive short sequences", "§4 C03"),
+    "C05": ("Theorem C05_read_is_tail, for every capacity > 0 and instantiated at the extracted 1001: after any sequence of messages of any lengths the two read segments, concatenated, are exactly the last min(total, capacity) bytes logged, in order "
+            "(step theorem read(log l m) = lastN cap (read l ++ m) under a ring invariant, lifted by induction over histories; every prefix is a history, so it holds at every read point). C05_plan_sound: every plan covers exactly the retained tail, lies inside the buffer, segments disjoint. "
+            "Plans (as offsets) and read-back segments compared with the real ring after every message, split request/copy forms included.",
+            TB + "A trap inside the cross-memory copy itself (guest passes an out-of-bounds source) is outside the stated quantifier and not modelled.",
+            "Lean 4 invariant + refinement to 'last N bytes' by induction over histories + differential correspondence", "§4 C05"),
     "C06": ("Theorems over the regenerated constants: documented 32-bit layout, 64-bit layout, saturation at exactly 2^14-1 on both widths, totality of unboxing (never a crash), tag table; "
             "the constants are re-translated from core/src/read.rs on every run; box/unbox compared with the real crate on all boundary lengths x pointers, decision-relevant prefix/tag patterns, random doubles and raw patterns.",
             TB, "Lean 4 theorems over translated constants (decide +kernel) + differential correspondence", "§4 C06"),
@@ -31,6 +36,14 @@ CLAIMS = {
     "C10": ("Theorems for all doubles: for i8/i16/i32/u8/u16/u32 Ok(r) iff the double is an integer with exact value r in range; for the 64-bit types the same for every double except 2^63 / 2^64, "
             "with the counterexamples proved and reported as known findings; guard and cast compared with the real Deserialize impls on every power of two +-2 ulp, bounds, halves, infinities and random doubles for the ten types.",
             TB, "Lean 4 theorems (case analysis over exact values, decide +kernel for the bounds) + differential correspondence", "§4 C10"),
+    "C11": ("Theorems: the inline field of a handle is min(n, 2^14-1) for every n on both widths (from the C06 round trip); the api-level length accessor returns the node's true length for every size "
+            "(inline below the limit, length query exactly when the field is saturated); the length query answers -1 for values without a length; an index is refused as out of bounds iff it is >= the true length. "
+            "Strings/arrays/objects of sizes 0..40, 2^14-3..2^14+2, 65535, 65536, 70000 reached as root, nested, by name, by index and as key-at-index compared with the real provider and api accessors.",
+            TB, "Lean 4 theorems over the NaN-box and reader models + differential correspondence at boundary sizes", "§4 C11"),
+    "C12": ("Theorem C12_refines (refinement to an append-only list of byte strings): after interning any sequence of strings the ids are 0,1,2,… and the k-th id resolves to the k-th string — however many and however large the later ones are; "
+            "C12_write_by_id / C12_lookup_by_id: using an id behaves exactly like using the bytes; the interner survives a new invocation. Interleavings of interns (0..1 MiB), lookups and writes by id, new invocations and a second thread compared with the real crates.",
+            TB + "A variant that stored pointers instead of offsets cannot be told apart by the model (offsets only); the correspondence run across buffer growth is what exhibits it.",
+            "Lean 4 refinement theorem by induction over intern sequences + differential correspondence", "§4 C12"),
     "C13": ("Theorems: starting an invocation yields a state that depends only on the input bytes and on the deliberately surviving interner/cache, so every later answer is independent of earlier history (all histories); "
             "regenerated obligation that both initialisers replace the whole context and carry over exactly the interner (natively) / nothing (wasm); invocation sequences on one thread compared with the model and with the same invocation on a fresh thread.",
             TB, "Lean 4 theorems + regenerated structural obligation + differential correspondence", "§4 C13"),
